@@ -45,7 +45,8 @@ impl Property for C04 {
          (sampled subsets above), each cheater gets a fault kind from {+1, -1, negated, zero, random, another signer's share, own share \
          from another session, two signers' shares swapped}, plus a cancelling variant (errors summing to zero) for every subset of size \
          >= 2; each (session, cheater set, variant) is run through Disabled / FirstCheater / AllCheaters aggregation and the standalone \
-         share verification and compared with the reference model on scalars. One evaluation per (session, cheater set, variant). \
+         share verification and compared with the reference model on scalars; per session additionally a re-randomized session \
+         (frost-rerandomized aggregate / aggregate_custom) with every single cheater, everybody and sampled subsets. One evaluation per (session, cheater set, variant). \
          non-trivial = anything but the suite's two cases (two lowest cheat by +1; highest cheats by +1); distinct = distinct \
          (suite, n, t, |S|, cheater positions, kinds, cancelling?, parities) tuples"
             .into()
@@ -78,7 +79,7 @@ impl Property for C04 {
             1 => (4, 5),
             _ => (6, if tier == Tier::Quick { if suite.slow() { 6 } else { 9 } } else if suite.slow() { 8 } else { 14 }),
         };
-        let src = prop_oneof![3 => Just(KeySource::Dealer), 1 => Just(KeySource::Dkg)];
+        let src = prop_oneof![3 => Just(KeySource::Dealer), 1 => Just(KeySource::Dkg), 1 => Just(KeySource::DealerRefreshed), 1 => Just(KeySource::Repaired)];
         (nlo..=nhi, any::<u16>(), idspec_strategy(None), src, any::<u64>(), msg_short_strategy(), any::<u64>())
             .prop_map(move |(n, ti, ids, source, sseed, msg, seed)| {
                 // |S| = n here (size class is about the signer set): t <= n, signers = all n or a t..n subset
@@ -104,6 +105,7 @@ impl Property for C04 {
             ("cheaters>=2".into(), m),
             ("cheaters=all".into(), m),
             ("all-shares-valid-but-sum-invalid".into(), m),
+            ("rerandomized".into(), m),
             ("tr:key-odd,R-odd".into(), 5),
             ("tr:key-odd,R-even".into(), 5),
             ("tr:key-even,R-odd".into(), 5),
@@ -265,6 +267,72 @@ fn check<C: Suite>(case: &Case, ctx: &mut Ctx) -> CheckResult {
             }
             let desc = format!("n={} t={} |S|={} cheaters(pos)={:?} kinds={:?} {}", shape.n, shape.t, m, cheat_pos, kinds, parity);
             judge::<C>(ctx, &f.sess.package, &submitted, &f.keys.pubkeys, &cheaters, delta == zero::<C>(), &msg, &desc, "C04")?;
+        }
+    }
+
+    // ---- the re-randomized aggregation entry points (frost-rerandomized) obey the same model: a session signed with
+    // a randomizer, cheater sets = every single signer, everybody, a few sampled subsets (+ cancelling)
+    {
+        use frost_rerandomized as rr;
+        let vk = *f.keys.pubkeys.verifying_key();
+        let (nonces, comms) = commit_all::<C>(&f.keys.kps, &signers, rng.next());
+        let package = SigningPackage::new(comms, &msg);
+        let alpha = if rng.below(8) == 0 { zero::<C>() } else { sc_rand_nonzero::<C>(rng.next()) };
+        let params = rr::RandomizedParams::from_randomizer(&vk, rr::Randomizer::from_scalar(alpha));
+        let rpk = crate::props::c17::rand_pubkeys::<C>(&f.keys.pubkeys, alpha);
+        let mut sessions: Vec<BTreeMap<Id<C>, SignatureShare<C>>> = Vec::new();
+        for (pk, nn) in [(&package, &nonces)] {
+            let mut sh = BTreeMap::new();
+            for id in &signers {
+                #[allow(deprecated)]
+                match rr::sign::<C>(pk, &nn[id], &f.keys.kps[id], *params.randomizer()) {
+                    Ok(s) => {
+                        sh.insert(*id, s);
+                    }
+                    Err(e) => return ctx.fail("C04/rerandomized-honest-sign-failed", format!("re-randomized signing failed for an honest signer: {e:?}")),
+                }
+            }
+            sessions.push(sh);
+        }
+        let shares = &sessions[0];
+        let mut masks: Vec<u32> = (0..m.min(20)).map(|i| 1u32 << i).collect();
+        masks.push(((1u64 << m.min(20)) - 1) as u32);
+        for _ in 0..4 {
+            let x = (rng.next() as u32) & (((1u64 << m.min(20)) - 1) as u32);
+            if x != 0 {
+                masks.push(x);
+            }
+        }
+        for mask in masks {
+            let cheat_pos: Vec<usize> = (0..m.min(20)).filter(|i| mask >> i & 1 == 1).collect();
+            for cancelling in [false, true] {
+                if cancelling && cheat_pos.len() < 2 {
+                    continue;
+                }
+                // "other-session" faults take the share from the plain (not re-randomized) session of the same signers
+                let (sub2, kinds) = tamper_shares::<C>(shares, &f.sess.shares, &signers, &cheat_pos, cancelling, &mut rng);
+                let (cheaters, dz) = model::<C>(shares, &sub2);
+                if cheaters.is_empty() {
+                    ctx.discard();
+                    continue;
+                }
+                ctx.eval(&format!("{},{},{},rerandomized,{:b},{:?},{}", shape.n, shape.t, m, mask, kinds, alpha == zero::<C>()), true);
+                ctx.label("rerandomized");
+                let desc = format!("re-randomized session (randomizer {}), n={} t={} |S|={} cheaters(pos)={:?} kinds={:?}", if alpha == zero::<C>() { "zero" } else { "non-zero" }, shape.n, shape.t, m, cheat_pos, kinds);
+                judge_with::<C>(
+                    ctx,
+                    &package,
+                    &sub2,
+                    &rpk,
+                    &|md| rr::aggregate_custom::<C>(&package, &sub2, &f.keys.pubkeys, md, &params),
+                    &|| rr::aggregate::<C>(&package, &sub2, &f.keys.pubkeys, &params),
+                    &cheaters,
+                    dz,
+                    &msg,
+                    &desc,
+                    "C04",
+                )?;
+            }
         }
     }
 
